@@ -136,6 +136,15 @@ impl TlsRecordsParser {
     }
 }
 
+/// Verification-only accessor (compiled only with `--cfg tls_parser_verif`)
+#[cfg(tls_parser_verif)]
+impl TlsRecordsParser {
+    #[doc(hidden)]
+    pub fn verif_defrag_buffer(&self) -> &[u8] {
+        &self.record_defrag_buffer
+    }
+}
+
 #[cfg(test)]
 mod tests {
     use crate::{parse_tls_raw_record, TlsMessageHandshake, TlsVersion};
